@@ -68,6 +68,11 @@
         replacement text, and with `&e;` there (reported as recursion).  A finding of this round
         (notes/wf_STATUS.md), outside the profile of [valid] ([ent_items_ok] allows no markup in entity
         values), so (f) is not affected; (e) cannot be extended to all documents with a DOCTYPE.
+        A second witness ([wellformed_is_accepted_refuted_external]): <!DOCTYPE a SYSTEM "x.dtd"><a>&u;</a>
+        is well-formed (with an external subset and without standalone="yes", Entity Declared is a
+        validity constraint; expat reports a skipped entity) and is REJECTED: the tolerance for
+        undeclared names is applied to references nested in entity values only, not to a reference
+        written in content or in an attribute value.
     Not proved: documents WITH a document type declaration -- the DTD rung of [render_wf] (renderings of
     the declarations read back by the specification, the constraints with declared entities and defaulted
     attributes) and the converse (e) for the internal subset -- and, for all documents, [parse_render]
@@ -219,6 +224,16 @@ Proof.
   rewrite H in E. discriminate E.
 Qed.
 
+(* <!DOCTYPE a SYSTEM "x.dtd"><a>&u;</a> *)
+Definition ex_ext_undeclared : str := [60;33;68;79;67;84;89;80;69;32;97;32;83;89;83;84;69;77;32;34;120;46;100;116;100;34;62;60;97;62;38;117;59;60;47;97;62]%N.
+
+Theorem wellformed_is_accepted_refuted_external : wf ex_ext_undeclared = true /\ forall d, Info.from_raw ex_ext_undeclared <> Info.OOk ([], d).
+Proof.
+  split; [vm_compute; reflexivity|]. intros d H.
+  assert (E : match Info.from_raw ex_ext_undeclared with Info.OInfoErr _ => true | _ => false end = true) by (vm_compute; reflexivity).
+  rewrite H in E. discriminate E.
+Qed.
+
 Example rendered_nontrivial :
   comment_ok [32;97;45;98;32]%N = true /\ pi_ok [112;105]%N (Some [120;63;32;62]%N) = true.
 Proof. split; vm_compute; reflexivity. Qed.
@@ -241,3 +256,4 @@ Print Assumptions rendered_nodoctype_is_accepted_partial.
 Print Assumptions render_wf_refuted.
 Print Assumptions denote_refuted.
 Print Assumptions wellformed_is_accepted_refuted.
+Print Assumptions wellformed_is_accepted_refuted_external.
